@@ -53,11 +53,11 @@ theorem nodup_insertSorted (l : List Obj) (o : Obj) (h : l.Nodup) : (insertSorte
       · intro e; subst e; exact hn.1 ha
       · exact h.2.2 a ha b hb
 
-theorem callCb_eq {U : Universe} (hn : NoRaise U) (s : St) (o : Obj) (m : String) (e : Entry) :
+theorem callCb_eq {U : Universe} [hp : U.Passive] (hn : NoRaise U) (s : St) (o : Obj) (m : String) (e : Entry) :
     callCb U s o m e =
       ({ s with calls := Dict.set s.calls (o, m) ((Dict.get? s.calls (o, m)).getD 0 + 1),
                 log := e :: s.log }, .ok) := by
-  unfold callCb; simp only [hn o m]
+  unfold callCb; simp only [hn o m, hp.noReact]
 
 theorem ctrlRecord_remove (U : Universe) (s : St) (o : Obj) (ent : Option Ent) :
     ctrlRecord U s onRemove o ent = s := by
@@ -97,7 +97,7 @@ theorem removeComponent_exact_eq (U : Universe) (s : St) (e : Ent) (t : Ty) (c :
   cases o <;> rfl
 
 /-- explicit result of detaching a handler component with `on_remove` while enabled -/
-theorem removeComponent_enabled_eq {U : Universe} (hn : NoRaise U) (s : St) (e : Ent) (t : Ty)
+theorem removeComponent_enabled_eq {U : Universe} [U.Passive] (hn : NoRaise U) (s : St) (e : Ent) (t : Ty)
     (c : Obj) (m : Mapping) (meth : String) (hc : Dict.get? (row s e) t = some c)
     (hm : U.mapOf c = some m) (hon : Dict.get? m onRemove = some meth) (hen : s.enabled = true) :
     removeComponent U s e t =
@@ -109,7 +109,7 @@ theorem removeComponent_enabled_eq {U : Universe} (hn : NoRaise U) (s : St) (e :
     callCb_eq hn]
 
 /-- release of a queue of relays: one lifecycle entry per relay, in order -/
-theorem releaseQ_relays {U : Universe} (hn : NoRaise U)
+theorem releaseQ_relays {U : Universe} [U.Passive] (hn : NoRaise U)
     (rel : List (String × Obj × Option Ent × String))
     (hmeth : ∀ r ∈ rel, (U.mapOf r.2.1).bind (fun m => Dict.get? m r.1) = some r.2.2.2) :
     ∀ s0 : St, s0.known.contains onSingle = true → s0.selfReg = true →
